@@ -407,14 +407,15 @@ func (mr *muxRun) referenceCheck(world *World) *refResult {
 			}
 			// versions of api/test.proto registered right now
 			versions := map[int]bool{}
+			inTestProto := func(s string) bool { return s == svcFiles || s == svcMessaging }
 			for _, s := range locals {
-				if s != tsvc {
+				if inTestProto(s) {
 					versions[1] = true
 				}
 			}
 			for t, adv := range advOf {
 				for _, s := range adv {
-					if s != tsvc {
+					if inTestProto(s) {
 						versions[schemaOf[t]] = true
 					}
 				}
